@@ -31,7 +31,7 @@ func main() {
 }
 
 func defaultOptions() Options {
-	return Options{Solver: "z3", QueryTimeoutMs: 20000, StepLimit: 3_000_000, LoopBound: 4096, HarnessDir: "/verif/harness"}
+	return Options{Solver: "z3", QueryTimeoutMs: 20000, StepLimit: 3_000_000, LoopBound: 4096, HarnessDir: verifRoot() + "/harness"}
 }
 
 func cmdRun(args []string) {
@@ -116,3 +116,21 @@ func modelString(v *Violation) string {
 	return s
 }
 
+
+
+// verifRoot / repoRoot: /verif and /repo, unless a background run works on
+// snapshot copies (VERIF_ROOT / VERIF_REPO; the harness module's replace
+// directive must then point at the same copy of the repository).
+func verifRoot() string {
+	if v := os.Getenv("VERIF_ROOT"); v != "" {
+		return v
+	}
+	return "/verif"
+}
+
+func repoRoot() string {
+	if v := os.Getenv("VERIF_REPO"); v != "" {
+		return v
+	}
+	return "/repo"
+}
